@@ -6,7 +6,7 @@ import PolyVerif.Lemmas.NodesOps
 
 namespace PolyVerif.Linz
 open Nodes
-variable {V : Type}
+variable {V : Type} {F : Nat}
 
 /-! ### `before` -/
 
@@ -91,23 +91,23 @@ theorem split_unique {α : Type} {b : α} {p1 q1 p2 q2 : List α} (h : p1 ++ b :
 /-! ### `replay` -/
 
 theorem replay_append (g : Graph V) (xs ys : List (Call V)) :
-    replay g (xs ++ ys) = ((replay (replay g xs).1 ys).1, (replay g xs).2 ++ (replay (replay g xs).1 ys).2) := by
+    replay F g (xs ++ ys) = ((replay F (replay F g xs).1 ys).1, (replay F g xs).2 ++ (replay F (replay F g xs).1 ys).2) := by
   induction xs generalizing g with
   | nil => simp [replay]
   | cons c cs ih => simp [replay, ih]
 
-theorem replay_length (g : Graph V) (cs : List (Call V)) : (replay g cs).2.length = cs.length := by
+theorem replay_length (g : Graph V) (cs : List (Call V)) : (replay F g cs).2.length = cs.length := by
   induction cs generalizing g with
   | nil => rfl
   | cons c cs ih => simp [replay, ih]
 
 theorem replay_snoc (g : Graph V) (xs : List (Call V)) (c : Call V) :
-    replay g (xs ++ [c]) = ((seqStep (replay g xs).1 c).1, (replay g xs).2 ++ [(seqStep (replay g xs).1 c).2]) := by
+    replay F g (xs ++ [c]) = ((seqStep F (replay F g xs).1 c).1, (replay F g xs).2 ++ [(seqStep F (replay F g xs).1 c).2]) := by
   rw [replay_append]; simp [replay]
 
 /-! ### the sequential specification stays inside C11's invariant -/
 
-theorem seqStep_inv {g : Graph V} (hinv : Inv g) (c : Call V) : Inv (seqStep g c).1 := by
+theorem seqStep_inv {g : Graph V} (hinv : Inv F g) (c : Call V) : Inv F (seqStep F g c).1 := by
   cases c with
   | update p v =>
     simp only [seqStep]
@@ -119,25 +119,26 @@ theorem seqStep_inv {g : Graph V} (hinv : Inv g) (c : Call V) : Inv (seqStep g c
     cases hp : g p <;> exact hinv
   | artifact i => exact (Eval_ok i g hinv).inv
 
-theorem replay_inv {g : Graph V} (hinv : Inv g) (cs : List (Call V)) : Inv (replay g cs).1 := by
+theorem replay_inv {g : Graph V} (hinv : Inv F g) (cs : List (Call V)) : Inv F (replay F g cs).1 := by
   induction cs generalizing g with
   | nil => exact hinv
   | cons c cs ih => exact ih (seqStep_inv hinv c)
 
 /-- by C11's `read_fresh`: an artifact is the from-scratch value of the state it is applied to -/
-theorem artifact_spec {g : Graph V} (hinv : Inv g) (i : Nat) : (seqStep g (.artifact i)).2 = .val (Spec g i) := by
+theorem artifact_spec {g : Graph V} (hinv : Inv F g) (i : Nat) : (seqStep F g (.artifact i)).2 = .val (Spec F g i) := by
   simp only [seqStep]
+  obtain ⟨rank, hwf⟩ := hinv.wf
   have hok := Eval_ok i g hinv
-  rw [val_eq_spec hok.inv hok.fresh, Spec_static hinv.wf hok.evo.static]
+  rw [val_eq_spec hok.inv hok.fresh, Spec_static hwf hok.evo.static]
 
 /-- the sequential specification changes parameters, processors and wiring only by `update` -/
-theorem seqStep_static {g : Graph V} (c : Call V) (h : ∀ p v, c ≠ .update p v) : SameStatic (seqStep g c).1 g := by
+theorem seqStep_static {g : Graph V} (c : Call V) (h : ∀ p v, c ≠ .update p v) : SameStatic (seqStep F g c).1 g := by
   cases c with
   | update p v => exact absurd rfl (h p v)
   | paramData p =>
     simp only [seqStep]
     cases g p <;> exact SameStatic.refl g
-  | artifact i => exact Eval_static g i
+  | artifact i => exact Eval_static F g i
 
 /-! ### the concurrent system: invariant -/
 
@@ -160,11 +161,11 @@ def PcOK (s : Sys V) (t : Tid) : Pc V → Prop
 section
 variable [DecidableEq V]
 
-structure J (g0 : Graph V) (s : Sys V) : Prop where
+structure J (F : Nat) (g0 : Graph V) (s : Sys V) : Prop where
   mutex : ∀ t, (s.pc t).inCrit = true → s.lock = some t
   locked : ∀ t, s.lock = some t → (s.pc t).inCrit = true
-  state : s.g = (replay g0 (s.lin.map (·.call))).1
-  legal : (replay g0 (s.lin.map (·.call))).2 = s.lin.map (·.resp)
+  state : s.g = (replay F g0 (s.lin.map (·.call))).1
+  legal : (replay F g0 (s.lin.map (·.call))).2 = s.lin.map (·.resp)
   invoked : ∀ o ∈ s.lin, o.invE ∈ s.hist
   nodup : (s.lin.map (·.id)).Nodup
   complete : ∀ id r, Event.resp id r ∈ s.hist → ∃ o ∈ s.lin, o.id = id ∧ o.resp = r
@@ -173,7 +174,7 @@ structure J (g0 : Graph V) (s : Sys V) : Prop where
   pcs : ∀ t, PcOK s t (s.pc t)
   realtime : ∀ a ∈ s.lin, ∀ b ∈ s.lin, before s.hist a.respE b.invE = true → before s.lin a b = true
 
-theorem J.init (g0 : Graph V) : J g0 (Sys.init g0) := by
+theorem J.init (g0 : Graph V) : J F g0 (Sys.init g0) := by
   refine ⟨?_, ?_, rfl, rfl, ?_, ?_, ?_, ?_, ?_, ?_, ?_⟩ <;> simp [Sys.init, Pc.inCrit, PcOK]
 
 omit [DecidableEq V] in
@@ -186,7 +187,7 @@ theorem PcOK.mono {s s' : Sys V} {t : Tid} {pc : Pc V} (h : PcOK s t pc)
   | executed id c r => simp only [PcOK, hl]; exact h
   | unlocked id c r => simp only [PcOK, hl]; exact h
 
-theorem J.step {g0 : Graph V} {s s' : Sys V} (hj : J g0 s) (hs : Step s s') : J g0 s' := by
+theorem J.step {g0 : Graph V} {s s' : Sys V} (hj : J F g0 s) (hs : Step F s s') : J F g0 s' := by
   cases hs with
   | invoke t c hpc =>
     have hlin_lt : ∀ o ∈ s.lin, o.id < s.next := fun o ho => hj.fresh o.id o.tid o.call (hj.invoked o ho)
@@ -259,7 +260,7 @@ theorem J.step {g0 : Graph V} {s s' : Sys V} (hj : J g0 s) (hs : Step s s') : J 
   | exec t id c hpc =>
     have hpt := hj.pcs t
     rw [hpc] at hpt
-    have hreplay := replay_snoc g0 (s.lin.map (·.call)) c
+    have hreplay := replay_snoc (F := F) g0 (s.lin.map (·.call)) c
     refine ⟨?_, ?_, ?_, ?_, ?_, ?_, ?_, hj.fresh, hj.uniq, ?_, ?_⟩ <;> (try dsimp only)
     · intro u hu
       by_cases hut : u = t
@@ -394,7 +395,7 @@ theorem J.step {g0 : Graph V} {s s' : Sys V} (hj : J g0 s) (hs : Step s s') : J 
       simp only [hne, decide_false, Bool.and_false, Bool.or_false] at hbef
       exact hj.realtime a ha b hb hbef
 
-theorem J.exec {g0 : Graph V} {s : Sys V} (h : Exec g0 s) : J g0 s := by
+theorem J.exec {g0 : Graph V} {s : Sys V} (h : Exec F g0 s) : J F g0 s := by
   induction h with
   | init => exact J.init g0
   | step _ hs ih => exact ih.step hs
@@ -415,7 +416,7 @@ def lastUpd : List (Call V) → Nat → Option V
       | _ => none
 
 theorem seqStep_param {g : Graph V} {p : Nat} {x : V} {n : Nat} (hp : g p = .param x n) (c : Call V) :
-    ∃ n', (seqStep g c).1 p = .param ((lastUpd [c] p).getD x) n' := by
+    ∃ n', (seqStep F g c).1 p = .param ((lastUpd [c] p).getD x) n' := by
   cases c with
   | update q v =>
     simp only [seqStep, lastUpd]
@@ -428,16 +429,16 @@ theorem seqStep_param {g : Graph V} {p : Nat} {x : V} {n : Nat} (hp : g p = .par
     simp only [seqStep, lastUpd]
     cases g q <;> exact ⟨n, by simp [hp]⟩
   | artifact i =>
-    have := Eval_static g i p
+    have := Eval_static F g i p
     rw [hp] at this
     exact ⟨n, by simp [seqStep, lastUpd, StaticEq.param_left this]⟩
 
 theorem replay_param {g : Graph V} {p : Nat} {x : V} {n : Nat} (hp : g p = .param x n) (cs : List (Call V)) :
-    ∃ n', (replay g cs).1 p = .param ((lastUpd cs p).getD x) n' := by
+    ∃ n', (replay F g cs).1 p = .param ((lastUpd cs p).getD x) n' := by
   induction cs generalizing g x n with
   | nil => exact ⟨n, by simp [replay, lastUpd, hp]⟩
   | cons c cs ih =>
-    obtain ⟨n1, h1⟩ := seqStep_param hp c
+    obtain ⟨n1, h1⟩ := seqStep_param (F := F) hp c
     obtain ⟨n2, h2⟩ := ih h1
     refine ⟨n2, ?_⟩
     simp only [replay]
